@@ -34,6 +34,7 @@ def check(run):
         run.guard("C13.5.lookup", cfg, lambda: rule_lookup(run, F, cfg))
         run.guard("C13.6.priority-suffix", cfg, lambda: rule_priority(run, F, cfg))
         run.guard("C13.6.priority-suffix", cfg + "/slices", lambda: rule_priority_slices(run, F, cfg))
+        run.guard("C13.6.priority-suffix", cfg + "/ties", lambda: rule_tie_break(run, F, cfg))
         run.guard("C13.5.lookup", cfg + "/registration", lambda: rule_registration_atomic(run, F, cfg))
         from . import wire_keys as _wk
         run.guard("C13.7.resource-wire-keys", cfg, lambda: run.floor(
@@ -341,6 +342,94 @@ def rule_priority_slices(run, F, cfg):
         run.ob("C13.6.priority-suffix", "higher-priority-wins", len(cmp_) == 1 and cand is not None,
                f"the compared candidate `{cand}` is the priority of the rule at hand and the other operand the best so far",
                config=cfg)
+
+
+def rule_tie_break(run, F, cfg):
+    """Among matching redirect rules the best one is chosen by (priority, resource name): a candidate replaces the best
+    so far iff its priority is greater, or equal with a name that compares strictly before / after the current one.
+    A total order on the candidates makes the choice independent of the order in which the matching rules are
+    visited, which differs between an optimised and an unoptimised engine and between batch and incremental loading."""
+    import itertools
+    f = F.fn("blocker::Blocker::check_parameterised")
+    best = [l for l, nme in f.varnames.items() if nme == "resource_and_priority"]
+    upd = [b for b, i, st in f.statements() if st["k"] == "assign" and st["pl"]["l"] in best and not st["pl"]["p"]
+           and f.vexpr_rvalue(st["rv"]).startswith("std::option::Option::Some{")]
+    sw = [b for b in sorted(f.normal_blocks()) if f.blocks[b]["t"]["k"] == "switch"
+          and f.vexpr_operand(f.blocks[b]["t"]["discr"]) == "discr($resource_and_priority)"] if best else []
+    ok_shape = len(best) == 1 and len(sw) == 1 and len(upd) == 2
+    rows = []
+    if ok_shape:
+        t = f.blocks[sw[0]]["t"]
+        some_arm = [tg for v, tg in t["targets"] if v == 1]
+        in_some = [b for b in upd if some_arm and b in f.reachable_from(some_arm[0], avoid={sw[0]}) and f.dominates(some_arm[0], b)]
+        ok_shape = len(in_some) == 1 and bool(some_arm)
+    if ok_shape:
+        target = in_some[0]
+        join = f.blocks[target]["t"].get("t")
+
+        def walk(b, conds, seen):
+            if b == target:
+                rows.append((dict(conds), "update"))
+            elif b == join:
+                rows.append((dict(conds), "keep"))
+            elif b not in seen and len(seen) < 40:
+                t2 = f.blocks[b]["t"]
+                if t2["k"] == "switch":
+                    d = f.vexpr_operand(t2["discr"])
+                    vals = [v for v, _ in t2["targets"]]
+                    for v, tg in t2["targets"]:
+                        walk(tg, conds + [(d, v)], seen | {b})
+                    walk(t2["otherwise"], conds + [(d, 1 if vals == [0] else "else")], seen | {b})
+                elif t2["k"] in ("goto", "call", "assert", "drop") and t2.get("t") is not None:
+                    walk(t2["t"], conds, seen | {b})
+                else:
+                    rows.append((dict(conds), "?"))
+        walk(some_arm[0], [], frozenset())
+    atoms = {}
+    unknown = set()
+    for conds, out in rows:
+        for e in conds:
+            m = re.match(r"^\((\$\w+) (Gt|Lt|Eq) (\$\w+)\)$", e)
+            m2 = re.match(r"^std::cmp::impls::(lt|gt|le|ge)\((\$\w+), (\$\w+)\)$", e)
+            if m:
+                atoms[e] = ("P" + m.group(2), m.group(1), m.group(3))
+            elif m2:
+                atoms[e] = ("N", m2.group(2), m2.group(3))
+            else:
+                unknown.add(e[:100])
+    kinds = sorted(a[0] for a in atoms.values())
+    modelled = ok_shape and not unknown and kinds in (["N", "PEq", "PGt"], ["N", "PEq", "PLt"], ["PGt"], ["PLt"]) and all(o != "?" for _, o in rows)
+    run.ob("C13.6.priority-suffix", "tie-break:modelled", modelled,
+           f"the replacement of the best redirect so far is decided by one priority order comparison, one priority equality "
+           f"and one strict comparison of the resource names ({sorted(atoms)}; unmodelled: {sorted(unknown)[:2]}; shape {ok_shape})",
+           status=None if modelled else "UNDISCHARGED", site=f.loc(sw[0]) if sw else f.loc(0), config=cfg)
+    if not modelled:
+        return
+    if len(kinds) == 1:
+        run.ob("C13.6.priority-suffix", "tie-break:by-name", False,
+               "the best redirect so far is replaced on a strictly greater priority only: among matching redirect rules of "
+               "equal priority the first one visited wins, and the visiting order is the bucket order, which optimisation and "
+               "incremental loading change", site=f.loc(sw[0]), config=cfg)
+        return
+    # the priority comparisons are between the same two variables, the name comparison between the two names bound
+    # together with them
+    keys = {a[0]: e for e, a in atoms.items()}
+    ord_k = "PGt" if "PGt" in keys else "PLt"
+    pa, pb = atoms[keys[ord_k]][1:], atoms[keys["PEq"]][1:]
+    same_vars = set(pa) == set(pb)
+    bad = []
+    for g_, e_, n_ in itertools.product((0, 1), repeat=3):
+        if g_ and e_:
+            continue
+        v = {keys[ord_k]: g_, keys["PEq"]: e_, keys["N"]: n_}
+        got = {out for conds, out in rows if all(v[k] == x for k, x in conds.items())}
+        want = "update" if (g_ or (e_ and n_)) else "keep"
+        if got != {want}:
+            bad.append((g_, e_, n_, sorted(got), want))
+    run.ob("C13.6.priority-suffix", "tie-break:by-name", same_vars and not bad,
+           "a matching redirect replaces the best so far iff its priority is greater, or equal and its resource name compares "
+           f"strictly against the current name: the result does not depend on the visiting order (differences: {bad[:2]}; "
+           f"priority variables {pa} / {pb})", site=f.loc(sw[0]), config=cfg)
 
 
 def rule_registration_atomic(run, F, cfg):
